@@ -245,6 +245,155 @@ fn oracle_casm(or: &mut Oracle, p0: &Program, canon: &Program, name: &str) -> bo
     true
 }
 
+/// `Debug` rendering: shows every debug name (which `==` ignores).
+/// Root of the tree under test: $VERIF_REPO (scratch worktrees of the seeded-change evaluation) or /repo.
+fn repo(rel: &str) -> String {
+    format!("{}/{}", std::env::var("VERIF_REPO").unwrap_or_else(|_| "/repo".into()).trim_end_matches('/'), rel)
+}
+fn dbg_str(p: &Program) -> String {
+    format!("{:?}", p)
+}
+/// Leg "debug-info-populate" (explored + modelled in C18/DebugInfo.v): the names recorded by
+/// `DebugInfo::extract` put back by `populate` into the stripped program give the program again -
+/// every id, also inside the generic arguments of type and libfunc declarations.  `p` must carry
+/// its names consistently (declaration = uses); variable and user type names are outside DebugInfo.
+/// Also the JSON form of the DebugInfo itself (leg "debug-info-json").
+fn oracle_debug_info(or: &mut Oracle, p: &Program, input: &Value) {
+    use cairo_lang_sierra::debug_info::DebugInfo;
+    or.check("debug-info-populate");
+    let c = progs::strip_uv(p);
+    let r = catch(AssertUnwindSafe(|| -> Result<(), (String, String)> {
+        let info = DebugInfo::extract(&c);
+        let mut q = progs::strip(&c);
+        info.populate(&mut q);
+        if dbg_str(&q) != dbg_str(&c) {
+            return Err(("debug-info-populate".into(), format!("populate(extract(p), strip(p)) != p; got {}", trunc(&dbg_str(&q), 1500))));
+        }
+        let js = serde_json::to_string(&info).map_err(|e| ("debug-info-json".to_string(), format!("to_string: {}", e)))?;
+        let back: DebugInfo = serde_json::from_str(&js).map_err(|e| ("debug-info-json".to_string(), format!("from_str: {}", e)))?;
+        if back != info {
+            return Err(("debug-info-json".into(), "DebugInfo changed through JSON".into()));
+        }
+        Ok(())
+    }));
+    match r {
+        Err(pm) => or.fail("debug-info-populate", panic_msg(pm), input.clone()),
+        Ok(Err((leg, e))) => or.fail(&leg, e, input.clone()),
+        Ok(Ok(())) => {}
+    }
+}
+/// Leg "class-debug-info" (explored): ContractClass::new (felt252 program + DebugInfo) -> JSON ->
+/// ContractClass -> extract_sierra_program(true) gives the same program with the same names and
+/// the same text; when `parse_back`, that text parses to an isomorphic program (leg
+/// "class-debug-info-text"), and when a CASM baseline is given, it compiles to the same CASM (leg
+/// "casm-equality").  Returns false if the class path does not apply (a felt >= P).
+fn oracle_class_debug(or: &mut Oracle, p: &Program, input: &Value, parse_back: bool, casm_base: Option<&str>) -> bool {
+    let c = progs::strip_uv(p);
+    let v = VersionId { major: 1, minor: 0, patch: 0 };
+    let prime = stark_prime();
+    match i_ser(v, v, &c) {
+        Ok(Ok(f)) if f.iter().all(|x| x.value < prime) => {}
+        _ => return false,
+    }
+    or.check("class-debug-info");
+    let r = catch(AssertUnwindSafe(|| -> Result<(), (String, String)> {
+        let leg = "class-debug-info".to_string();
+        let cc = ContractClass::new(&c, Default::default(), None, Default::default()).map_err(|e| (leg.clone(), format!("ContractClass::new: {:?}", e)))?;
+        let js = serde_json::to_string(&cc).map_err(|e| (leg.clone(), format!("to_string: {}", e)))?;
+        let cc2: ContractClass = serde_json::from_str(&js).map_err(|e| (leg.clone(), format!("from_str: {}", e)))?;
+        if cc2 != cc {
+            return Err((leg, "ContractClass changed through JSON".into()));
+        }
+        let e = cc2.extract_sierra_program(true).map_err(|e| (leg.clone(), format!("extract_sierra_program(true): {:?}", e)))?.program;
+        if dbg_str(&e) != dbg_str(&c) {
+            return Err((leg, format!("extracted + populated program differs (ids / debug names); got {}", trunc(&dbg_str(&e), 1500))));
+        }
+        let te = e.to_string();
+        if te != c.to_string() {
+            return Err((leg, "extracted + populated program prints differently".into()));
+        }
+        if parse_back {
+            let leg = "class-debug-info-text".to_string();
+            let q = ProgramParser::new().parse(&te).map_err(|e| (leg.clone(), format!("text of the extracted program does not parse: {}", trunc(&format!("{:?}", e), 300))))?;
+            if dbg_str(&progs::canon(&q)) != dbg_str(&progs::canon(&ProgramParser::new().parse(&c.to_string()).map_err(|e| (leg.clone(), format!("text of the original does not parse: {}", trunc(&format!("{:?}", e), 300))))?)) {
+                return Err((leg, "parse(print(extracted)) is not the program parse(print(original))".into()));
+            }
+            if let Some(base) = casm_base {
+                match casm_text(&q) {
+                    Ok(t) if t == base => {}
+                    Ok(_) => return Err(("casm-equality".into(), "CASM differs after class + debug info + text round trip".into())),
+                    Err(e) => return Err(("casm-equality".into(), format!("program after class + debug info + text round trip does not compile: {}", trunc(&e, 300)))),
+                }
+            }
+        }
+        Ok(())
+    }));
+    match r {
+        Err(pm) => or.fail("class-debug-info", panic_msg(pm), input.clone()),
+        Ok(Err((leg, e))) => or.fail(&leg, e, input.clone()),
+        Ok(Ok(())) => {}
+    }
+    true
+}
+/// Text round trip of a program that carries debug names (leg "text-roundtrip-named"): ids are
+/// re-derived from the names by the parser, so the comparison is up to the renumbering `canon`,
+/// names included; printing is a fix-point.
+fn oracle_text_named(or: &mut Oracle, p: &Program, input: &Value) {
+    or.check("text-roundtrip-named");
+    let r = catch(AssertUnwindSafe(|| -> Result<(), String> {
+        let t1 = p.to_string();
+        let p1 = ProgramParser::new().parse(&t1).map_err(|e| format!("printed program does not parse: {}; text:\n{}", trunc(&format!("{:?}", e), 300), trunc(&t1, 1500)))?;
+        if dbg_str(&progs::canon(&p1)) != dbg_str(&progs::canon(p)) {
+            return Err(format!("parse(print(p)) is not p up to renumbering; text:\n{}", trunc(&t1, 1500)));
+        }
+        if p1.to_string() != t1 {
+            return Err("print(parse(print(p))) != print(p)".into());
+        }
+        Ok(())
+    }));
+    match r {
+        Err(pm) => or.fail("text-roundtrip-named", panic_msg(pm), input.clone()),
+        Ok(Err(e)) => or.fail("text-roundtrip-named", e, input.clone()),
+        Ok(Ok(())) => {}
+    }
+}
+
+/// The `//! > sierra_code` sections of the e2e test data: compiler output with debug names.
+fn e2e_sections() -> Vec<(String, String)> {
+    let mut files = vec![];
+    walk(Path::new(&repo("tests/e2e_test_data")), "", &mut files, true);
+    files.sort();
+    let mut out = vec![];
+    for f in files {
+        let Ok(text) = std::fs::read_to_string(&f) else { continue };
+        let mut test = String::new();
+        let mut expect_name = true;
+        let mut cur: Option<String> = None;
+        for line in text.lines() {
+            if let Some(h) = line.strip_prefix("//! > ") {
+                if let Some(code) = cur.take() {
+                    out.push((format!("{}::{}", f.to_str().unwrap_or(""), test), code));
+                }
+                if h.starts_with("=====") {
+                    expect_name = true;
+                } else if expect_name {
+                    test = h.trim().to_string();
+                    expect_name = false;
+                } else if h.trim() == "sierra_code" {
+                    cur = Some(String::new());
+                }
+            } else if let Some(c) = cur.as_mut() {
+                c.push_str(line);
+                c.push('\n');
+            }
+        }
+        if let Some(code) = cur.take() {
+            out.push((format!("{}::{}", f.to_str().unwrap_or(""), test), code));
+        }
+    }
+    out
+}
+
 // ------------------------------------------------------------------ corpus
 fn walk(dir: &Path, suffix: &str, out: &mut Vec<PathBuf>, recurse: bool) {
     let Ok(rd) = std::fs::read_dir(dir) else { return };
@@ -273,7 +422,7 @@ struct Corp {
 /// accepts (there is no `supported_ids` for types).
 fn core_type_ids(extra: &[String]) -> Vec<String> {
     let mut files = vec![];
-    walk(Path::new("/repo/crates/cairo-lang-sierra/src/extensions"), ".rs", &mut files, true);
+    walk(Path::new(&repo("crates/cairo-lang-sierra/src/extensions")), ".rs", &mut files, true);
     files.sort();
     let mut cands: Vec<String> = extra.to_vec();
     for f in files {
@@ -509,8 +658,8 @@ fn main() {
     let mut corpus: Vec<Corp> = vec![];
     let mut corpus_parse_failures: Vec<String> = vec![];
     let mut sierra_files = vec![];
-    for d in ["/repo/crates/cairo-lang-sierra/examples", "/repo/tests/test_data", "/repo/crates/cairo-lang-starknet/test_data", "/repo/examples"] {
-        walk(Path::new(d), ".sierra", &mut sierra_files, true);
+    for d in ["crates/cairo-lang-sierra/examples", "tests/test_data", "crates/cairo-lang-starknet/test_data", "examples"] {
+        walk(Path::new(&repo(d)), ".sierra", &mut sierra_files, true);
     }
     sierra_files.sort();
     sierra_files.dedup();
@@ -546,7 +695,7 @@ fn main() {
         }
     }
     let mut class_files = vec![];
-    walk(Path::new("/repo/crates/cairo-lang-starknet/test_data"), ".contract_class.json", &mut class_files, false);
+    walk(Path::new(&repo("crates/cairo-lang-starknet/test_data")), ".contract_class.json", &mut class_files, false);
     class_files.sort();
     let mut corpus_classes = 0;
     for f in &class_files {
@@ -621,6 +770,7 @@ fn main() {
     pr::write_shard(out_dir, "hyp", 0, &long_tab, None, "check_hyp long_tab", &[], None);
     let pools = Pools { type_ids: type_ids.clone(), libfunc_ids: libfunc_ids.clone(), long_ids: long_ids.clone() };
 
+    let populate_cases;
     // ================================================================ oracle over the corpus
     let mut casm_compiled = 0;
     for c in corpus.iter_mut() {
@@ -640,6 +790,115 @@ fn main() {
         if let Some(f) = oracle_felt(&mut or, &mut rng, &c.prog, &input, true) {
             c.raw_len = i_decompress(&f[6..]).ok().flatten().map(|r| r.len()).unwrap_or(0);
         }
+    }
+
+    // ================================================================ debug-info paths
+    // (own generator stream: the other legs keep their inputs)
+    let mut rng_d = Rng(seed ^ 0xD1B5_4A32_D192_ED03);
+    // (1) e2e test data: compiler output with names (coupons, function_call, closures, ...)
+    let e2e = e2e_sections();
+    let mut e2e_parsed = 0;
+    let mut e2e_parse_failures: Vec<String> = vec![];
+    let mut e2e_used = 0;
+    let mut e2e_compiled = 0;
+    for (name, text) in &e2e {
+        let p0 = match catch(AssertUnwindSafe(|| ProgramParser::new().parse(text).map_err(|e| trunc(&format!("{:?}", e), 160)))) {
+            Ok(Ok(p)) => p,
+            Ok(Err(e)) => {
+                e2e_parse_failures.push(format!("{}: {}", name, e));
+                continue;
+            }
+            Err(pm) => {
+                e2e_parse_failures.push(format!("{}: {}", name, panic_msg(pm)));
+                continue;
+            }
+        };
+        e2e_parsed += 1;
+        // ids other than types inside type declarations are what the goldens of the class path lack
+        let special = p0.type_declarations.iter().any(|d| d.long_id.generic_args.iter().any(|a| matches!(a, GenericArg::UserFunc(_) | GenericArg::Libfunc(_))))
+            || p0.libfunc_declarations.iter().any(|d| d.long_id.generic_args.iter().any(|a| matches!(a, GenericArg::Libfunc(_))));
+        if !(thorough || special || rng_d.below(8) == 0) {
+            continue;
+        }
+        e2e_used += 1;
+        let input = json!({"corpus": name});
+        let c = progs::canon(&p0);
+        oracle_text(&mut or, &p0, &input);
+        oracle_debug_info(&mut or, &c, &input);
+        let base = if p0.statements.len() <= 600 { casm_text(&p0).ok() } else { None };
+        if base.is_some() {
+            e2e_compiled += 1;
+            or.check("casm-equality");
+        }
+        oracle_class_debug(&mut or, &c, &input, true, base.as_deref());
+    }
+    // (2) generated closed programs with consistent names, every GenericArg kind in type and
+    //     libfunc declarations
+    let n_named = 120 * mult;
+    let mut named_progs: Vec<Program> = vec![];
+    for k in 0..n_named {
+        let text_names = k % 2 == 0;
+        let p = progs::gen_named_program(&mut rng_d, &pools, text_names);
+        let input = json!({"generated": dbg_str(&p), "text": trunc(&p.to_string(), 3000)});
+        oracle_debug_info(&mut or, &p, &input);
+        oracle_class_debug(&mut or, &p, &input, text_names, None);
+        if text_names {
+            oracle_text_named(&mut or, &p, &input);
+        }
+        oracle_json(&mut or, &p, &input);
+        named_progs.push(p);
+    }
+    // populate leg for Coq: populate(extract(p), q) on consistent and inconsistent programs
+    {
+        use cairo_lang_sierra::debug_info::DebugInfo;
+        let mut lines: Vec<(String, usize)> = vec![];
+        let mut push = |p: &Program, q: &Program| {
+            let r = catch(AssertUnwindSafe(|| {
+                let mut q2 = q.clone();
+                DebugInfo::extract(p).populate(&mut q2);
+                q2
+            }));
+            if let Ok(r) = r {
+                lines.push((format!("({}, {}, {})", pr::program(p), pr::program(q), pr::program(&r)), pr::weight(p) + 2 * pr::weight(q)));
+            }
+        };
+        for (k, p) in named_progs.iter().enumerate() {
+            push(p, &progs::strip(p));
+            if k % 4 == 0 {
+                push(p, p);
+            }
+        }
+        for k in 0..60 * mult {
+            // inconsistent names, duplicates of ids among uses, undeclared ids
+            let p = progs::gen_program(&mut rng_d, &pools, Opts { text_ok: false, medium: false });
+            match k % 3 {
+                0 => push(&p, &progs::strip(&p)),
+                1 => push(&p, &p),
+                _ => {
+                    let q = progs::gen_program(&mut rng_d, &pools, Opts { text_ok: false, medium: false });
+                    push(&p, &q)
+                }
+            }
+        }
+        populate_cases = lines.len();
+        let mut sh = Sharder {
+            dir: out_dir,
+            leg: "populate",
+            long_tab: &long_tab,
+            case_ty: "populate_case",
+            check: "check_populate cases",
+            extra: None,
+            max_cases: 120,
+            max_weight: 50_000,
+            cur: vec![],
+            cur_weight: 0,
+            n_shards: 0,
+            sizes: vec![],
+        };
+        for (l, w) in lines {
+            sh.push(l, w);
+        }
+        sh.flush();
     }
 
     // ================================================================ generated programs
@@ -1223,6 +1482,13 @@ fn main() {
         "tier": tier,
         "corpus_text_programs": corpus_text_programs,
         "corpus_classes": corpus_classes,
+        "e2e_sierra_sections": e2e.len(),
+        "e2e_parsed": e2e_parsed,
+        "e2e_parse_failures": e2e_parse_failures,
+        "e2e_used_in_debug_info_legs": e2e_used,
+        "e2e_compiled_to_casm": e2e_compiled,
+        "named_programs": named_progs.len(),
+        "populate_cases": populate_cases,
         "corpus_programs_compiled_to_casm": casm_compiled,
         "corpus_parse_failures": corpus_parse_failures,
         "corpus_in_coq_legs": corpus_in_coq_legs,
